@@ -25,6 +25,7 @@ from mc.viocap import report
 from mc import sched
 
 PROPERTY = "C10"
+SIZE_MODULES = ['mokapot.parsers.pin', 'mokapot.parsers.helpers', 'mokapot.utils', 'mokapot.dataset']  # see mc.runner._sized_passes
 LEVEL = "exploration"
 RULE = (
     "case = table specification (feature count, identifier set, column order, casing, optional columns, label "
